@@ -195,10 +195,32 @@ def make_chain(rng):
             d.steps.append(("evo5", M.Vec(M.Prim(rng.choice(["int32", "int8"]))), True))
             d.steps.append(("evo6", M.Opt(M.Prim(rng.choice(["int32", "float32", "uint16"]))), True))
             d.steps.append(("evo7", M.Opt(M.Prim(rng.choice(["int32", "int16"]))), False))
+    must = ()
+    if len(recs) >= 2 and rng.chance(0.6):
+        # one generic record instantiated with two different records that the edits below may change: the
+        # compatibility code of every instantiation's argument is needed, not only that of the first one walked
+        box = M.Record("EvoBox", ("T",), [("item", M.TParam("T")), ("count", M.Prim("int32")), ("more", M.Vec(M.TParam("T")))])
+        fn0 = sorted(base.files)[0]
+        base.files[fn0].append(box)
+        # two records that are reachable through the generic record only
+        inner = []
+        for nm in ("EvoInnerA", "EvoInnerB"):
+            r = M.Record(nm, (), [("ident", M.Prim(rng.choice(["int32", "int16"]))), ("label", M.Prim("string")), ("weight", M.Opt(M.Prim("float32"))),
+                                  ("codes", M.Vec(M.Prim(rng.choice(["int16", "uint8"]))))])
+            base.files[fn0].append(r)
+            inner.append(r)
+        args = inner if rng.chance(0.6) else rng.sample(recs, 2)
+        for d in base.defs():
+            if isinstance(d, M.Protocol):
+                d.steps.append(("evo8", M.Named("EvoBox", (M.Named(args[0].name),)), rng.chance(0.5)))
+                d.steps.append(("evo9", M.Named("EvoBox", (M.Named(args[1].name),)), rng.chance(0.5)))
+        recs = recs + inner
+        if rng.chance(0.7):
+            must = (args[0].name, args[1].name)      # both instantiations' arguments change between versions
     for r in recs:
         if rng.chance(0.6):
             r.fields.append(("vecfield%d" % rng.randint(1, 99), M.Vec(M.Prim(rng.choice(["int32", "int16", "float32"])))))
-    newest = E.with_versions(base, rng.fork("ver"), rng.randint(1, 2), partial=True)
+    newest = E.with_versions(base, rng.fork("ver"), rng.randint(1, 2), partial=True, must_edit=must)
     return newest
 
 
@@ -321,6 +343,11 @@ def model_task(task, ybin, root):
             return {"stats": stats, "violations": [], "cases": [], "samples": []}
         stats["chains"] = 1
         stats["versions"] = len(old_models)
+        edits = [e for l in getattr(newest, "edit_log", []) for e in l]
+        if newest.find("EvoBox") is not None:
+            stats["chains_with_generic_of_two_records"] = 1
+            if any("EvoInner" in e for e in edits):
+                stats["chains_editing_a_record_reachable_only_through_the_generic"] = 1
         for proto in model.protocols():
             run_modes(model, cm, old_models, proto, rng.fork(proto.name), stats, viols, task)
             cases.append((["c05", i, proto.name, len(old_models)], True))
@@ -352,10 +379,10 @@ def replay_doc(d, ybin, root):
 
 
 def main():
-    runner.run(PROP, "exploration", "checks.C05", quick_models=10, thorough_budget=1800,
+    runner.run(PROP, "exploration", "checks.C05", quick_models=16, thorough_budget=1800,
                rule=("one case = one protocol of one accepted version chain (1-2 predecessors, 1-4 documented edits per step: add/remove optional field, add/remove field, reorder "
                      "fields, widen int/float, T -> T?, add stream/vector/optional step, add definition, rename through an alias) x 3 seeded value workloads per predecessor x three "
-                     "mixed-version pipelines (old stream -> new reader; new writer targeting the old version; old -> new -> old); chains yardl rejects are discarded and counted"),
+                     "mixed-version pipelines (old stream -> new reader; new writer targeting the old version; old -> new -> old); chains yardl rejects are discarded and counted; 60% of the chains carry a generic record instantiated with two different records, mostly ones reachable only through it"),
                real_code="generated C++ for the newest package with `versions:` (compatibility serializers, per-version switches, VersionFromSchema) + shipped headers; old-version schemas from the generated code of the old packages",
                stubbed="C++ nd-array header and date/date.h; harness main emitted from the generated protocols.h",
                assumptions=["where the reference conversion says a runtime error is allowed (overflow, inexact narrowing, removed union case) neither an error nor a value is judged",
